@@ -23,10 +23,10 @@ def bv_val(t):
 
 
 class Frame:
-    __slots__ = ('fn', 'cells')
+    __slots__ = ('fn', 'cells', 'gen_consts')
 
     def __init__(self, fn):
-        self.fn, self.cells = fn, {}
+        self.fn, self.cells, self.gen_consts = fn, {}, ()
 
     def cell(self, local):
         c = self.cells.get(local)
@@ -150,6 +150,8 @@ class Exec:
         """Fork a symbolic integer over lo..hi-1; outside that range -> BoundExceeded path (only if feasible)."""
         v = sc.concrete() if isinstance(sc, Sc) else sc
         if v is not None:
+            if not (lo <= v < hi) and what in ('index', 'slice get', 'Vec::remove index', 'range start', 'range end', 'swap', 'split_at'):
+                raise BoundExceeded('%s %d outside [%d,%d)' % (what, v, lo, hi))
             return v
         w = sc.t.size()
         conds = [sc.t == z3.BitVecVal(k, w) for k in range(lo, hi)]
@@ -323,11 +325,21 @@ class Exec:
             return Struct([], last_seg(ty))
         if t.startswith('fnitem '):
             return FnItem(t[7:])
-        m = re.fullmatch(r'\{alloc\d+: &(?:mut )?(.*)\}', t, re.S)
+        m = re.fullmatch(r'\{(alloc\d+): &(?:mut )?(.*)\}', t, re.S)
         if m:
-            return self.named_const(fr, m.group(1).strip(), True)
+            item = self.prog.allocs.get((fr.fn.crate, m.group(1)))
+            if item is not None:
+                # reference to a static: evaluated once per path, shared by every use
+                st = self.world.__dict__.setdefault('statics', {}) if self.world is not None else {}
+                key = (fr.fn.crate, item)
+                if key not in st:
+                    st[key] = Cell(self.named_const(fr, item, True))
+                return Ptr(st[key])
+            return self.named_const(fr, m.group(2).strip(), True)
         if 'promoted[' in t:
-            f = self.prog.by_full.get((fr.fn.crate, t)) or self.prog.by_full.get((fr.fn.crate, 'const ' + t))
+            pk = re.search(r'promoted\[\d+\]$', t)
+            own = 'const %s::%s' % (fr.fn.name[6:] if fr.fn.name.startswith('const ') else fr.fn.name, pk.group(0)) if pk else None
+            f = (self.prog.by_full.get((fr.fn.crate, own)) if own else None) or self.prog.by_full.get((fr.fn.crate, t)) or self.prog.by_full.get((fr.fn.crate, 'const ' + t))
             if f is None:
                 # references carry the full path and generic arguments, definitions use the trimmed path: match on the
                 # last segments (enclosing item, promoted[k]) within the same crate
@@ -361,10 +373,14 @@ class Exec:
             if f is not None:
                 return self.call_fn(f, [])
         ls = name.split('::')[-1]
-        for (cr, nm), f in self.prog.by_full.items():
-            if f.promoted and nm.startswith('const ') and nm.split('::')[-1] == ls and cr == fr.fn.crate:
-                return self.call_fn(f, [])
+        cands = [(cr, f) for (cr, nm), f in self.prog.by_full.items() if f.promoted and nm.startswith('const ') and 'promoted[' not in nm and nm[6:].split('::')[-1] == ls]
+        same = [f for cr, f in cands if cr == fr.fn.crate]
+        pick = same or [f for _, f in cands]
+        if len(pick) == 1:
+            return self.call_fn(pick[0], [])
         last = name.split('::')[-1]
+        if re.fullmatch(r'[A-Z][A-Z0-9_]*', name) and len(fr.gen_consts) == 1:
+            return mk_int(fr.gen_consts[0], 'usize')       # const generic parameter of the current function
         if re.fullmatch(r'[\w:]+', name) and last[:1].isupper() and not last.isupper():
             return Struct([], last)          # unit struct used as a value (RangeFull, PhantomData, ...)
         raise Unsupported('constant ' + name)
@@ -631,9 +647,13 @@ class Exec:
         return Struct(vals, names[-1])
 
     # ------------------------------------------------------------------ execution
-    def call_fn(self, fn, args):
+    def call_fn(self, fn, args, gen_consts=()):
         self.stats.fns_interpreted[fn.name] = self.stats.fns_interpreted.get(fn.name, 0) + 1
         fr = Frame(fn)
+        fr.gen_consts = gen_consts
+        prev_fn = getattr(self, 'cur_fn', None)
+        if not fn.promoted:
+            self.cur_fn = fn
         for (p, _), a in zip(fn.params, args):
             fr.cells[p] = Cell(a)
         self.depth += 1
@@ -653,6 +673,10 @@ class Exec:
                         raise BoundExceeded('step bound %d' % self.max_steps)
                     try:
                         nxt = self.exec(fr, st)
+                    except PanicPath as pp:
+                        if getattr(pp, 'where', None) is None:
+                            pp.where = '%s %s' % (fn.name.split('>::')[-1][-50:], bb)      # innermost repository frame
+                        raise
                     except Unsupported as u:
                         if not getattr(u, 'located', False):
                             u.located = True
@@ -668,6 +692,7 @@ class Exec:
                 bb = nxt
         finally:
             self.depth -= 1
+            self.cur_fn = prev_fn
 
     def exec(self, fr, st):
         k = st[0]
@@ -699,6 +724,10 @@ class Exec:
                 self.models.drop_value(self, v)
             return st[2]
         if k == 'assert':
+            if 'overflow' in st[3] and not getattr(self.models, 'overflow_panics', False):
+                # release-profile semantics: arithmetic wraps (the checked-op result tuple already holds the wrapped
+                # value); dev-profile overflow panics are outside the claims and would not replay on the release build
+                return st[4]
             c = self.operand(fr, st[1])
             cond = z3.Not(c.t) if st[2] else c.t
             if self.branch(cond):
@@ -760,6 +789,10 @@ class Exec:
     # ------------------------------------------------------------------ calls
     def call(self, fr, callee, args, dest_place=None):
         self.stats.callees[callee] = self.stats.callees.get(callee, 0) + 1
+        if callee.startswith('<{closure@') and re.search(r' as Fn(Mut|Once)?<.*>>::call(_mut|_once)?$', callee):
+            # closure value invoked through the Fn* traits: (closure, (args...))
+            tup = args[1] if len(args) > 1 else None
+            return self.call_value(args[0], list(tup.f) if isinstance(tup, Struct) else [])
         key = (callee, fr.fn.file)
         h = self.callee_cache.get(key)
         if h is None:
@@ -785,7 +818,12 @@ class Exec:
             dest_ty = fr.fn.locals.get(dest_place[1]) if dest_place and dest_place[0] == 'local' else None
             return fnc(self, m, args, callee, dest_ty)
         if h[0] == 'mir':
-            return self.call_fn(h[1], args)
+            # const generic arguments (`::<16>`) become the callee's const parameters
+            gm = re.search(r'::<([^<>]*)>$', callee)
+            gens = tuple(int(x) for x in re.findall(r'(?<![\w])(\d+)(?![\w])', gm.group(1))) if gm else ()
+            if not gens and fr.gen_consts and re.search(r'::<[A-Z]\w*>$', callee):
+                gens = fr.gen_consts                      # forwarded parameter (`::<N>`)
+            return self.call_fn(h[1], args, gens)
         raise Unsupported('unmodelled callee: ' + callee)
 
     def call_value(self, f, args):
